@@ -458,6 +458,10 @@ func t2WaitFor(faults []t2Fault) time.Duration {
 		if f.kind == t2PopDelay && f.idx > 2 {
 			d += time.Duration(f.idx) * time.Second
 		}
+		if f.kind == t2Freeze {
+			// the client notices a frozen proxy after its 20 s staleness timeout: each freeze costs that long
+			d += 25 * time.Second
+		}
 	}
 	return d
 }
